@@ -165,6 +165,9 @@ def finding_signature(res, case):
 
 def describe_violation(res):
     p = _lead(res)
+    if p.get("kind") == "power-reduction" and p.get("comparison"):
+        return (f"comparison {p['power']} over the value set {p['values']} of {p['var']} is rewritten to `{p['reduced']}`, which has another truth "
+                f"value at {p['var']} = {p['value']}\nnormalised program:\n{res.get('normalized')}")
     if p.get("kind") == "power-reduction":
         return (f"power {p['power']} of variable {p['var']} (values {p['values']}) is rewritten to `{p['reduced']}`, which differs from "
                 f"the power at value {p['value']}\nnormalised program:\n{res.get('normalized')}")
